@@ -186,6 +186,32 @@ def restart_image(harness, img, dest, keys, twice=False):
     return out
 
 
+def nested_restart_cases(harness, snap, dest, keys, workdir, tagbase):
+    """C34: crash DURING startup replay. Materialise the image, run the real restart under strace,
+    and return one (tag, image) per prefix of the restart's own file-mutating calls."""
+    snap.materialise(dest)
+    trace = dest + ".trace"
+    markers = dest + ".markers"      # never written: restart emits no markers
+    env = dict(os.environ, TZ="UTC", VERIF_WORK=dest + ".w")
+    rc, err = S.run_traced([harness, "restart", dest, ",".join(keys)], trace, timeout=300, env=env)
+    calls = S.parse_log(trace)
+    ops2 = S.mutations(calls, dest, markers)
+    try:
+        os.remove(trace)
+    except OSError:
+        pass
+    shutil.rmtree(dest, ignore_errors=True)
+    shutil.rmtree(dest + ".w", ignore_errors=True)
+    out = []
+    img = snap.clone()
+    img.root = os.path.realpath(dest)
+    for k2 in range(len(ops2) + 1):
+        out.append(("%s,k2=%d/%d" % (tagbase, k2, len(ops2)), img.clone()))
+        if k2 < len(ops2) and ops2[k2]["kind"] not in ("ack", "fsync", "sync"):
+            img.apply(ops2[k2])
+    return out
+
+
 def durable_image(ops, k, root, pattern, rng):
     """directory image after power loss at prefix k.
     Everything up to the last sync(2) is durable; after it, a file's data writes are durable up to
@@ -272,6 +298,7 @@ def run(pid, cfg, seed, tier, workdir, log, harness, driver, replay_lines=None):
     pool = concurrent.futures.ThreadPoolExecutor(max_workers=max(2, (os.cpu_count() or 4) - 2))
     futs = []
     trace_lines = []
+    nested_done = {}
     for hi, (keys, steps, src) in enumerate(histories):
         wdir = os.path.join(workdir, "h%d" % hi)
         res, err = run_workload(harness, steps, "sync", wdir, log)
@@ -302,7 +329,7 @@ def run(pid, cfg, seed, tier, workdir, log, harness, driver, replay_lines=None):
         applied = 0
         for idx in ks:
             k, a, jj = pos[idx]
-            if mode in ("crash", "twice"):
+            if mode in ("crash", "twice", "nested"):
                 while applied < k:
                     if ops[applied]["kind"] not in ("ack", "fsync", "sync"):
                         img.apply(ops[applied])
@@ -319,6 +346,17 @@ def run(pid, cfg, seed, tier, workdir, log, harness, driver, replay_lines=None):
                 line = "%s %d %d %s %s %s" % (wcfg.get("op", "walcrash"), year, a, jj, ",".join(keys), " ".join(steps))
                 tagl = "%s,k=%d/%d,mode=%s,pattern=%s,inflight=%s" % (
                     src, k, len(ops), mode, pname, (steps[a][0] if a < len(steps) else "none"))
+                if mode == "nested":
+                    # only states with something to replay are interesting; bound the number per history
+                    if nested_done.get(hi, 0) >= wcfg.get("nested_per_history", {}).get(tier, 2 if tier == "quick" else 12):
+                        continue
+                    if not (jj.isdigit() and int(jj) >= 5) and rng.random() < 0.8:
+                        continue
+                    nested_done[hi] = nested_done.get(hi, 0) + 1
+                    for tg2, img2 in nested_restart_cases(harness, snap, dest, keys, workdir, tagl):
+                        d2 = os.path.join(workdir, "img2-%d-%d-%s" % (hi, k, tg2.split("k2=")[1].split("/")[0]))
+                        futs.append((line, tg2, pool.submit(restart_image, harness, img2, d2, keys, True)))
+                    continue
                 futs.append((line, tagl, pool.submit(restart_image, harness, snap, dest, keys, mode == "twice")))
         shutil.rmtree(wdir, ignore_errors=True)
     # model side, one driver run
@@ -336,15 +374,15 @@ def run(pid, cfg, seed, tier, workdir, log, harness, driver, replay_lines=None):
         out = fut.result()
         d = parse_model_line(model[mi]); mi += 1
         m = d["M"]
-        if mode == "twice":
+        if mode in ("twice", "nested"):
             # both restarts must print the same as a single one
             parts = out.split(" startup=")
             if len(parts) == 2 and ("startup=" + parts[1]) == parts[0]:
                 out = parts[0]
             else:
                 out = "twice-differs: " + out
-        if mode == "power" and m != "*":
-            m = "*"   # the crash model's exact prediction does not apply to lossy images; the spec does
+        if mode in ("power", "nested") and m != "*":
+            m = "*"   # the crash model's exact prediction does not apply to these images; the spec does
         if m == "*":
             m = out
         cases.append(dict(op=l, impl=out, model=m, spec=d["S"], hyps=d["H"], tags=tagl))
